@@ -24,7 +24,7 @@ RULE = ("hostile connections: one hostile item (a mutated message or garbage) se
 ASSUMPTIONS = ["a peer that stalls forever mid-message on the single-threaded multiplex server without a timeout is documented behaviour; hostile clients always close (after <=50 ms)",
                "'still accepts / keeps receiving' = within a 10 s watchdog after the last hostile socket is closed",
                "BaseException-only exceptions (SystemExit ...) raised by methods are outside the statement ('Exception subclasses')"]
-REQUIRED_REACH = ["slow_oneway_leavers_ok", "discovery_responder_ok", "served_while_handshakes_stalled", "abandoned_streams_swept", "injected_yields", "hostile_connections", "witness_calls_ok", "post_attack_handshake_ok", "accounting_restored", "refused_by_full_pool", "error_replies_seen", "stream_guess_phases_ok"]
+REQUIRED_REACH = ["oneway_calls_served_behind_a_pile", "slow_oneway_leavers_ok", "discovery_responder_ok", "served_while_handshakes_stalled", "abandoned_streams_swept", "injected_yields", "hostile_connections", "witness_calls_ok", "post_attack_handshake_ok", "accounting_restored", "refused_by_full_pool", "error_replies_seen", "stream_guess_phases_ok"]
 SHARD_TIMEOUT = {"quick": 240, "thorough": 3000}
 
 
@@ -46,6 +46,7 @@ class BadRepr(Exception):
 
 
 NAPS = {}        # key -> (entered Event, release Event)
+MARKS = {}       # key -> Event set when the oneway call of a well-behaved client has been carried out
 
 
 def make_service(P):
@@ -53,6 +54,10 @@ def make_service(P):
     class Svc(object):
         def echo(self, token):
             return token
+
+        def mark(self, key):
+            MARKS[key].set()
+            return key
 
         def nap(self, key):
             # an ordinary method that takes its time (until released, 8 s at most); a hostile client may flip the ONEWAY flag on its request
@@ -291,7 +296,9 @@ class Witness(threading.Thread):
                         got = p.echo(tok)
                 except P.errors.CommunicationError as x:
                     ct = P.config.COMMTIMEOUT
-                    if ct and (t_send - last_reply) > 0.25 * ct:
+                    if ct and ((t_send - last_reply) > 0.25 * ct or (time.monotonic() - t_send) > 0.5 * ct):
+                        # (... or the failing call itself took a good part of COMMTIMEOUT: client and daemon share this process, and on a loaded
+                        # machine the sending thread can be starved in the middle of a large request while the server's receive timeout runs)
                         # this witness itself was idle for a good part of the server's COMMTIMEOUT (descheduled on a loaded machine; the server's
                         # own clock started even earlier): the server may legitimately have timed the idle connection out. Not a verdict.
                         # It is no longer a client that "was connected all along": it reconnects like any new client, which a full pool may
@@ -544,6 +551,33 @@ def slow_oneway_phase(fx, P, rec, cfgkey, pay):
                               len(still_running), fx.live_connection_count(), base, "succeeded" if ok else "failed with %r" % (err,), cfgkey), pay)
             return False
         rec.count("slow_oneway_leavers_ok")
+        # one more client stays connected and piles up oneway requests for the slow method (more than any pool size in use here): the oneway
+        # calls of a well-behaved client are carried out all the same
+        hk = "nap-%s-pile" % cfgkey
+        NAPS[hk] = (threading.Event(), threading.Event())
+        keys.append(hk)
+        hc = wire.RawClient(fx.location, timeout=5.0)
+        try:
+            if hc.handshake("svc", ser).type == wire.CONNECTOK:
+                for _ in range(P.config.THREADPOOL_SIZE + 25):
+                    hc.invoke("svc", "nap", (hk,), {}, ser, flags=wire.F_ONEWAY)
+                NAPS[hk][0].wait(5)
+                hc.ping(seq=5)          # (everything sent before has been taken in)
+                mk = "mark-%s" % cfgkey
+                MARKS[mk] = threading.Event()
+                with fx.proxy("svc", timeout=5.0) as p:
+                    r1 = p._pyroInvoke("mark", (mk,), {}, flags=P.protocol.FLAGS_ONEWAY)
+                    done = MARKS[mk].wait(4.0)
+                    echoed = p.echo("behind-the-pile")
+                MARKS.pop(mk, None)
+                if r1 is not None or not done or echoed != "behind-the-pile":
+                    rec.violation("oneway-call-of-other-client-not-carried-out", "while one client had %d oneway requests for a slow method waiting, a well-behaved client's own oneway call was %s within 4 s "
+                                  "(its next ordinary call returned %r) (cfg %s)" % (P.config.THREADPOOL_SIZE + 25, "carried out" if done else "NOT carried out", echoed, cfgkey), pay)
+                    return False
+                rec.count("oneway_calls_served_behind_a_pile")
+        finally:
+            NAPS[hk][1].set()
+            hc.close()
         return True
     finally:
         for k in keys:
